@@ -35,7 +35,8 @@ def worker(argv):
     common.setup_repo_path()
     common.assert_repo_loaded()
     driver.arm_watchdog(a["budget"] * 3 + 300)
-    lifecycle.warmup()
+    if os.environ.get("VERIF_WARM") == "1":
+        lifecycle.warmup()     # default is cold: every forked run starts from a process that never used the package
     stats = {}
     runner = lifecycle.Runner({})
     n = 0
@@ -79,7 +80,8 @@ def replay(payload):
     threads.install_locks()
     common.setup_repo_path()
     common.assert_repo_loaded()
-    lifecycle.warmup()
+    if os.environ.get("VERIF_WARM") == "1":
+        lifecycle.warmup()
     runner = lifecycle.Runner({})
     res = runner.run(payload["scenario"])
     if res["result"] == "violation":
